@@ -91,7 +91,9 @@ def impl_case(case):
         x = np.zeros(len(s2i))
         for s, v in pt["x"].items():
             if s in s2i: x[s2i[s]] = v
-        dx = np.zeros(len(s2i)); I.py_calculate_deterministic_derivative(x.copy(), dx, pt["t"])
+        # the output array is the caller's: it may hold anything before the call (np.empty, a scratch array used before); every entry
+        # must be WRITTEN, the zero of a species no reaction changes included (seeded change S6_C03: such entries were skipped)
+        dx = np.full(len(s2i), 7.0 + k_pt); I.py_calculate_deterministic_derivative(x.copy(), dx, pt["t"])
         ds.append([fhex(v) for v in dx])
         rates.append([float(p.py_get_propensity(x.copy(), np.array(M.get_parameter_values(), dtype=float), pt["t"])) for p in M.get_propensities()])
     # the matrices are a function of the reaction list only: a simulation run on the model in between must not change what it reports
